@@ -86,8 +86,24 @@ def run_cond(case):
 
 
 def cond_strategy(tier):
+    from hypothesis import strategies as st
     from . import c05
-    return c05.strategy(tier)
+
+    def family(t):
+        """an event that is both an operand of a condition (built first) and waited on by 2-4 later processes/callbacks; the
+        condition is decided by another operand and processed while the event is still pending, then the event is triggered:
+        whatever the condition does to detach itself must leave the later waiters in registration order"""
+        d1, d2, n, kinds, fail, mode = t
+        cond = [["wait_cond", [mode, [["ev", 0], ["to", d1, "c"]] + ([["ev", 1]] if mode == "any" else [])], "continue", "continue"]]
+        waiter = [["wait", 0, "continue", "continue"], ["timeout", 0, None, "continue", "continue"]]
+        cbody = [["cb", 0, False], ["timeout", d2 + 1, None, "continue", "continue"]]
+        driver = [["timeout", d2, None, "continue", "continue"], (["fail", 0, ["ValueError", []]] if fail else ["succeed", 0, "v"])]
+        bodies = [cond, waiter, cbody, driver]
+        start = [0] + [1 if k else 2 for k in kinds[:n]] + [3]
+        return {"init": 0, "nev": 2, "bodies": bodies, "start": start}
+    fam = st.tuples(st.sampled_from([0, 0.5, 1]), st.sampled_from([1, 2, 1.5]), st.integers(2, 4),
+                    st.lists(st.booleans(), min_size=4, max_size=4), st.booleans(), st.sampled_from(["any", "any", "all"])).map(family)
+    return kgen.weighted([(c05.strategy(tier), 4), (fam, 1)])
 
 
 PROP = Property(
